@@ -13,6 +13,15 @@ Theorem C20_select : forall bin bn X,
 Proof. exact select_in_front. Qed.
 Print Assumptions C20_select.
 
+(* ... and therefore everything laze derives for that build — refusal, resolved modules, statements, output file,
+   tasks — is what it derives, with no --select, for the app with X written in front of its selects *)
+Require Import Laze.model.Imports Laze.model.Generate Laze.proofs.SelectFront.
+Theorem C20_select_configures_same : forall H EV b le builder bin X disable cli,
+  configure_build H EV b le builder bin X disable cli =
+  configure_build H EV b le builder (with_selects bin (X ++ m_selects bin)) [] disable cli.
+Proof. exact configure_select_in_front. Qed.
+Print Assumptions C20_select_configures_same.
+
 (* --disable Y: the disabled set of a build is the context chain's disables plus Y *)
 Theorem C20_disable : forall b builder disable y,
   In y (fold_left (fun a x => iset_insert x a) disable (collect_disabled b builder)) <->
